@@ -339,6 +339,7 @@ class Cluster:
         self, jobs_to_resubmit, updated_blocking_jobs_by_name, reset_results
     ):
         assert self._config.is_complete
+        self._check_versions("prepare_for_resubmission")
         if reset_results is not None:
             reset_results()
         self._config.is_complete = False
@@ -575,6 +576,20 @@ class Cluster:
 
         return True
 
+    def _check_versions(self, reason):
+        # Operations that write both files call this first so that a rejected write leaves
+        # both files untouched.
+        current = self._get_config_version()
+        if self._config.version != current:
+            raise ConfigVersionMismatch(
+                f"expected={current} actual={self._config.version} {reason}"
+            )
+        current = self._get_job_status_version()
+        if self._job_status.version != current:
+            raise JobStatusVersionMismatch(
+                f"expected={current} actual={self._job_status.version} {reason}"
+            )
+
     def _serialize(self, reason):
         current = self._get_config_version()
         if self._config.version != current:
@@ -645,6 +660,7 @@ class Cluster:
         hpc_job_ids,
         batch_index,
     ):
+        self._check_versions("update_job_status")
         self._job_status.hpc_job_ids = hpc_job_ids
         self._job_status.batch_index = batch_index
         status_lookup = {x.name: x for x in self._job_status.jobs}
